@@ -179,6 +179,96 @@ fn stakes_for_epochs() -> BTreeMap<TxHash, StakeDoc> {
     m
 }
 
+/// Scripted histories (pool life cycles, changing proposer actions) with a restart at *every* sealed point: the rebuilt state is
+/// driven through the whole rest of the script next to the state that kept running; acceptance, header and tips are compared
+/// after every step.  State that is neither committed by the header nor rebuilt by from_block shows only several blocks later.
+fn scripted_histories(run: &Run, thorough: bool) {
+    let scratch = Run::new("scratch", "quick");
+    let mut eng = Engine::new(&scratch);
+    // the script is followed whatever the reference model thinks of a step: this check compares the two lineages with each other
+    eng.continue_after_mismatch = true;
+    let mut cfg = crate::props::c01::pool_cfg();
+    cfg.splits = true;
+    cfg.max_txs_per_block = 3;
+    cfg.seal_actions = vec![None, Some(action_dest(1)), Some(melstructs::ProposerAction { fee_multiplier_delta: -128, reward_dest: addr_true() }), Some(melstructs::ProposerAction { fee_multiplier_delta: 127, reward_dest: addr_true2() })];
+    let scripts: Vec<(&str, NetID, u128, Vec<&str>)> = vec![
+        ("user pool: created, traded, emptied, asked while empty, re-created, traded, emptied", NetID::Custom02, 0, vec![
+            "open", "mint(", "seal(None)", "open", "deposit[MEL/C", "seal(delta=1", "open", "swap[MEL/C~(C", "seal(None)", "open", "withdraw[MEL/C", "seal(delta=-128",
+            "open", "swap[MEL/C~(MEL", "seal(None)", "open", "deposit[MEL/C", "xfer(", "seal(delta=127", "open", "swap[MEL/C~(MEL", "swap[MEL/C~(MEL", "seal(None)",
+            "open", "withdraw[MEL/C", "seal(delta=1", "open", "swap[MEL/C~(MEL", "seal(None)", "open", "deposit[MEL/C", "seal(None)", "open", "swap[MEL/C~(C", "seal(delta=1",
+        ]),
+        ("built-in pools: deposits, swaps on every side, withdrawals", NetID::Custom02, 0, vec![
+            "open", "deposit[MEL/SYM", "seal(delta=127", "open", "swap[MEL/SYM~(MEL", "swap[ERG/MEL", "seal(None)", "open", "deposit[ERG/SYM", "swap[MEL/SYM~(SYM", "seal(delta=-128",
+            "open", "withdraw[MEL/SYM", "swap[ERG/SYM", "seal(delta=1", "open", "split(", "seal(None)", "open", "withdraw[ERG/SYM", "mint(", "seal(delta=127", "open", "deposit[MEL/C", "seal(None)",
+            "open", "swap[MEL/C", "seal(delta=1", "open", "withdraw[MEL/C", "seal(None)",
+        ]),
+        ("testnet below 500: user pool and legacy rules", NetID::Testnet, 0, vec![
+            "open", "mint(", "seal(None)", "open", "deposit[MEL/C", "seal(delta=127", "open", "swap[MEL/C", "seal(None)", "open", "withdraw[MEL/C", "seal(delta=1", "open", "swap[MEL/C", "seal(None)",
+            "open", "deposit[MEL/C", "seal(None)", "open", "swap[MEL/C", "faucet0", "seal(delta=-128", "open", "deposit[MEL/SYM", "seal(None)", "open", "withdraw[MEL/SYM", "seal(None)",
+        ]),
+    ];
+    let repeats = if thorough { 3 } else { 1 };
+    for (name, net, fm, cycle) in scripts {
+        let (_w, rootn) = root(net, fm, true);
+        let mut c = cfg.clone();
+        c.faucets = net != NetID::Custom02;
+        let wants: Vec<&str> = (0..repeats).flat_map(|_| cycle.iter().cloned()).collect();
+        let (nodes, acts) = drive_script(&eng, rootn, &c, &wants);
+        let points: Vec<usize> = (0..nodes.len()).filter(|i| !nodes[*i].is_open()).collect();
+        run.states_add(points.len() as u64);
+        let diverged = std::sync::atomic::AtomicBool::new(false);
+        points.par_iter().for_each(|&i| {
+            let s = match &nodes[i].real {
+                Real::Sealed(s) => s,
+                _ => return,
+            };
+            let mut rebuilt = match restart(s) {
+                Ok(r) => Real::Sealed(r),
+                Err(class) => {
+                    run.violation("C08", format!("scripted-history/rebuild-panics/{}", class), format!("script '{}': from_block panicked at step {} ({})", name, i, nodes[i].path_str()), nodes[i].replay_json(None));
+                    return;
+                }
+            };
+            for j in i..acts.len() {
+                run.transition();
+                let got = apply_raw(&rebuilt, &acts[j]);
+                run.validated();
+                match got {
+                    Ok(Some(r)) => {
+                        let (ho, to) = describe(&nodes[j + 1].real);
+                        let (hr, tr) = describe(&r);
+                        if ho != hr || to != tr {
+                            diverged.store(true, std::sync::atomic::Ordering::SeqCst);
+                            let what = if ho != hr { header_diff(&ho, &hr).join(",") } else { "tips".into() };
+                            run.violation(
+                                "C08",
+                                format!("scripted-history-diverges/{}", what),
+                                format!("script '{}': restarted after step {} of {}, the two lineages differ in {} after step {} [{}]", name, i, acts.len(), what, j + 1, acts[j].label()),
+                                json!({"script": name, "restart_after_step": i, "diverges_after_step": j + 1, "path": nodes[j + 1].path_str()}),
+                            );
+                            return;
+                        }
+                        rebuilt = r;
+                    }
+                    Ok(None) => {
+                        diverged.store(true, std::sync::atomic::Ordering::SeqCst);
+                        run.violation("C08", "scripted-history-diverges/acceptance".into(), format!("script '{}': restarted after step {}, step {} [{}] is refused by the rebuilt lineage and accepted by the one that kept running", name, i, j + 1, acts[j].label()), json!({"script": name, "restart_after_step": i, "diverges_after_step": j + 1, "path": nodes[j + 1].path_str()}));
+                        return;
+                    }
+                    Err(class) => {
+                        // the lineage that kept running did not panic here
+                        run.violation("C08", format!("scripted-history/rebuilt-lineage-panics/{}", class), format!("script '{}': restarted after step {}, step {} [{}] panics in the rebuilt lineage only", name, i, j + 1, acts[j].label()), json!({"script": name, "restart_after_step": i, "step": j + 1}));
+                        return;
+                    }
+                }
+            }
+            run.outcome("scripted-history:same-to-the-end");
+        });
+        run.set(&format!("scripted_history:{}", name), json!({"network": format!("{:?}", net), "steps": acts.len(), "labels": acts.iter().map(|a| a.label()).collect::<Vec<_>>(), "restart_points": points.len(), "diverged": diverged.load(std::sync::atomic::Ordering::SeqCst), "final_height": nodes.last().map(|n| n.model.height)}));
+        println!("  scripted history '{}': {} steps, {} restart points", name, acts.len(), points.len());
+    }
+}
+
 pub fn run(run: &Run) {
     let thorough = run.thorough();
     let d1 = if thorough { 6 } else { 5 };
@@ -323,6 +413,7 @@ pub fn run(run: &Run) {
             }
         }
     }
+    scripted_histories(run, thorough);
     let mut points_total = 0;
     for (name, rootn) in roots {
         let collected = parking_lot::Mutex::new(vec![]);
